@@ -342,7 +342,7 @@ int main(int argc, char **argv) {
         runGraphCase(k, fixedTag(f), fixedCase(f));
     }
     // random small graphs
-    long nsmall = (thorough ? 2600 : 390) * a.scale;
+    long nsmall = (thorough ? 5200 : 1300) * a.scale;
     if (a.n >= 0) nsmall = a.n;
     for (long c = 0; c < nsmall; ++c, ++k) {
         if (!a.want(k)) continue;
@@ -351,21 +351,22 @@ int main(int argc, char **argv) {
         unsigned maxn = thorough ? (c % 4 == 0 ? 40 : 16) : 12;
         runGraphCase(k, CLASSES[cls], generate(r, cls, maxn));
     }
-    // medium / large graphs (thorough only)
-    if (thorough) {
-        long nbig = 26 * a.scale;
-        for (long c = 0; c < nbig; ++c, ++k) {
+    // medium graphs (both tiers) / large graphs (thorough only)
+    {
+        long nmed = 13 * a.scale, nbig = thorough ? 39 * a.scale : 0;
+        for (long c = 0; c < nmed + nbig; ++c, ++k) {
             if (!a.want(k)) continue;
             vh::Rng r = vh::caseRng(a.seed, k);
             int cls = (int) (c % NCLASSES);
-            unsigned maxn = (c < 13) ? 120 : 300;
+            unsigned maxn = (c < nmed) ? 48 : (c < nmed + 13 * a.scale) ? 120 : 300;
             g_maxm = 3000;
             Graph g = generate(r, cls, maxn, maxn / 2);
             runGraphCase(k, CLASSES[cls], g);
         }
+        g_maxm = 1000000;
     }
     // pairing heap operation sequences
-    long nheap = (thorough ? 400 : 60) * a.scale;
+    long nheap = (thorough ? 600 : 150) * a.scale;
     for (long c = 0; c < nheap; ++c, ++k) {
         if (!a.want(k)) continue;
         vh::Rng r = vh::caseRng(a.seed, k);
